@@ -93,18 +93,38 @@ theorem numa_plans_memory (info : NodeInfo) (origin : CpuMap) (B maxShare : Int)
       change (cnt ps p.numa : Int) * req.mem ≤ _
       omega
 
-/-- **commit_valid**: for a valid node whose memory usage fits — with or without NUMA topology — a
-    bound deployment computed by `CalculateDeploy` and committed with `SetNodeResourceUsage` leaves a
-    node state that `Validate` accepts (CPU clause and NUMA-memory clause) and whose memory usage still
-    fits (C10's memory clause, which `Validate` itself does not check).  The usage and NUMA-memory maps
-    are maps (distinct keys). -/
-theorem commit_valid (info : NodeInfo) (B maxShare count : Int) (raw w : RawReq) (order : List String) (ws : List Workload)
+/-- the `numaLocal` clause for a zero memory request: it then only says that a NUMA-tagged plan is
+    local and that its node's free NUMA memory is not negative — which `Validate` guarantees for the
+    NUMA nodes of a valid node (`usage.numaMem[n] ≤ capacity.numaMem[n]`), taken here as `hnn`. -/
+theorem numa_plans_local_zero_mem (info : NodeInfo) (origin : CpuMap) (B maxShare : Int) (req : Req)
+    (order : List String) (ps : List CpuPlan) (hB : 1 ≤ B) (hwf : WF info) (hord : order.Nodup) (hm : req.mem = 0)
+    (hnn : ∀ n, 0 ≤ info.available.numaMem.get n)
+    (h : getCPUPlans info origin B maxShare req order = .ok ps) :
+    numaLocal info.cap.numa info.available.numaMem req.mem ps = true := by
+  have hloc := numa_plans_local info origin B maxShare req order ps hB hwf hord h
+  unfold numaLocal
+  rw [List.all_eq_true]
+  intro p hp
+  by_cases he : p.numa = ""
+  · simp [he]
+  · have hne : p.numa.isEmpty = false := by
+      cases hh : p.numa.isEmpty with
+      | false => rfl
+      | true => exact absurd (String.isEmpty_iff.mp hh) he
+    simp only [hne, Bool.false_or, Bool.and_eq_true, List.all_eq_true, decide_eq_true_eq, hm, Int.mul_zero]
+    refine ⟨?_, hnn p.numa⟩
+    intro kv hkv
+    have := hloc p hp he kv.1 (List.mem_map_of_mem hkv)
+    simp [this]
+
+/-- common part of the two commit theorems for bound deployments -/
+theorem commit_bound (info : NodeInfo) (B maxShare count : Int) (raw w : RawReq) (order : List String) (ws : List Workload)
     (hB : 1 ≤ B) (hwf : WF info) (huk : info.use.cpuMap.keys.Nodup)
     (hcm : info.cap.numaMem.keys.Nodup) (hum : info.use.numaMem.keys.Nodup) (hord : order.Nodup)
-    (hval : info.validate = true) (hmv : memValid info = true)
-    (hraw : raw.validate = .ok w) (hbind : w.bind = true) (hmem : 0 ≤ w.memReq)
+    (hval : info.validate = true) (hraw : raw.validate = .ok w) (hbind : w.bind = true)
     (h : calculateDeploy info B maxShare count raw order = .ok ws) :
-    ∃ info', commit info ws = .ok info' ∧ memValid info' = true := by
+    ∃ info', commit info ws = .ok info' ∧ (memValid info = true → memValid info' = true) := by
+  have hmem : 0 ≤ w.memReq := validate_memReq_nonneg raw w hraw
   unfold calculateDeploy at h
   rw [hraw] at h
   simp only [hbind, if_true] at h
@@ -121,14 +141,115 @@ theorem commit_valid (info : NodeInfo) (B maxShare count : Int) (raw w : RawReq)
             { cpuReq := w.cpuReq, cpuLim := w.cpuLim, memReq := w.memReq, memLim := w.memLim, cpuMap := p.cpuMap, numa := p.numa,
               numaMem := if p.numa.isEmpty then [] else [(p.numa, w.memReq)] })
           hord hval hcm hum hmem hpl (by rw [List.map_map]; rfl)
-        apply commit_valid_core info [] B maxShare w.toReq order plans count.toNat _ hB hwf.1 huk hord hval hwf.2 hV3 hmem hmv hpl
+        apply commit_valid_core info [] B maxShare w.toReq order plans count.toNat _ hB hwf.1 huk hord hval hwf.2 hV3 hmem hpl
         · rw [List.map_map, ← List.map_take]; rfl
         · intro x hx
           obtain ⟨p, _, rfl⟩ := List.mem_map.mp hx
           rfl
   all_goals cases h
 
-/-- the hypotheses of `commit_valid` are satisfiable on a NUMA node: two NUMA-local instances of
+/-- **commit_validate**: for a valid node (in the plugin's sense — its memory usage may even exceed
+    its capacity), with or without NUMA topology, a bound deployment computed by `CalculateDeploy`
+    (any count = any prefix of the plans) and committed with `SetNodeResourceUsage` leaves a node state
+    that `Validate` accepts (CPU clause and NUMA-memory clause).  Maps are maps (distinct keys). -/
+theorem commit_validate (info : NodeInfo) (B maxShare count : Int) (raw w : RawReq) (order : List String) (ws : List Workload)
+    (hB : 1 ≤ B) (hwf : WF info) (huk : info.use.cpuMap.keys.Nodup)
+    (hcm : info.cap.numaMem.keys.Nodup) (hum : info.use.numaMem.keys.Nodup) (hord : order.Nodup)
+    (hval : info.validate = true) (hraw : raw.validate = .ok w) (hbind : w.bind = true)
+    (h : calculateDeploy info B maxShare count raw order = .ok ws) :
+    ∃ info', commit info ws = .ok info' ∧ info'.validate = true := by
+  obtain ⟨info', hc, _⟩ := commit_bound info B maxShare count raw w order ws hB hwf huk hcm hum hord hval hraw hbind h
+  refine ⟨info', hc, ?_⟩
+  unfold commit at hc
+  simp only [] at hc
+  split at hc
+  · rename_i hv; cases hc; exact hv
+  · cases hc
+
+/-- **commit_memValid**: if moreover the node's memory usage fits its capacity (C10's memory clause,
+    which `Validate` does not check), it still fits after the commit. -/
+theorem commit_memValid (info : NodeInfo) (B maxShare count : Int) (raw w : RawReq) (order : List String) (ws : List Workload)
+    (hB : 1 ≤ B) (hwf : WF info) (huk : info.use.cpuMap.keys.Nodup)
+    (hcm : info.cap.numaMem.keys.Nodup) (hum : info.use.numaMem.keys.Nodup) (hord : order.Nodup)
+    (hval : info.validate = true) (hmv : memValid info = true) (hraw : raw.validate = .ok w) (hbind : w.bind = true)
+    (h : calculateDeploy info B maxShare count raw order = .ok ws) :
+    ∃ info', commit info ws = .ok info' ∧ memValid info' = true := by
+  obtain ⟨info', hc, hm⟩ := commit_bound info B maxShare count raw w order ws hB hwf huk hcm hum hord hval hraw hbind h
+  exact ⟨info', hc, hm hmv⟩
+
+/-- **alloc_by_memory_fits** (the memory-only path `doAllocByMemory`): the instances of an unbound
+    deployment together fit the node's free memory — for every node state and count. -/
+theorem alloc_by_memory_fits (info : NodeInfo) (count : Int) (w : RawReq) (ws : List Workload)
+    (h : allocByMemory info count w = .ok ws) :
+    fitMemory info.available.mem w.memReq ws.length = true := by
+  unfold allocByMemory at h
+  split at h
+  · cases h
+  · split at h
+    · cases h
+    · rename_i hnot
+      cases h
+      unfold fitMemory
+      simp only [List.length_replicate, Bool.or_eq_true, beq_iff_eq, decide_eq_true_eq]
+      rcases Int.lt_or_le 0 w.memReq with hm | hm
+      · rcases Int.lt_or_le 0 count with hc | hc
+        · right
+          have hle : count ≤ info.available.mem.tdiv w.memReq := by
+            rcases Int.lt_or_le (info.available.mem.tdiv w.memReq) count with hlt | hge
+            · exact absurd ⟨hm, hlt⟩ hnot
+            · exact hge
+          have key := tdiv_mul_le_max info.available.mem w.memReq hm
+          have h1 : count * w.memReq ≤ max (info.available.mem.tdiv w.memReq) 0 * w.memReq :=
+            Int.mul_le_mul_of_nonneg_right (by omega) (by omega)
+          have h2 : 1 * w.memReq ≤ count * w.memReq := Int.mul_le_mul_of_nonneg_right (by omega) (by omega)
+          rw [Int.toNat_of_nonneg (by omega)]
+          omega
+        · left; left; omega
+      · left; right; exact hm
+
+/-- **commit_valid_unbound**: an unbound deployment (`doAllocByMemory`) committed to a valid node leaves
+    a node that `Validate` accepts (no CPU map or NUMA memory changes), and fitting memory still fits. -/
+theorem commit_valid_unbound (info : NodeInfo) (B maxShare count : Int) (raw w : RawReq) (order : List String) (ws : List Workload)
+    (hval : info.validate = true) (hraw : raw.validate = .ok w) (hbind : w.bind = false)
+    (h : calculateDeploy info B maxShare count raw order = .ok ws) :
+    ∃ info', commit info ws = .ok info' ∧ (memValid info = true → memValid info' = true) := by
+  have hmem : 0 ≤ w.memReq := validate_memReq_nonneg raw w hraw
+  have hfit : allocByMemory info count w = .ok ws := by
+    unfold calculateDeploy at h
+    rw [hraw] at h
+    simpa [hbind] using h
+  have hf := alloc_by_memory_fits info count w ws hfit
+  unfold allocByMemory at hfit
+  split at hfit
+  · cases hfit
+  · split at hfit
+    · cases hfit
+    · cases hfit
+      obtain ⟨c1, c2, c3⟩ := commitUsage_unbound info.use count.toNat
+        { cpuReq := w.cpuReq, cpuLim := w.cpuLim, memReq := w.memReq, memLim := w.memLim } rfl rfl
+      have hv' : ({ info with use := commitUsage info.use (List.replicate count.toNat
+          { cpuReq := w.cpuReq, cpuLim := w.cpuLim, memReq := w.memReq, memLim := w.memLim }) } : NodeInfo).validate = true := by
+        unfold NodeInfo.validate NodeInfo.validateCpu NodeInfo.validateNuma at hval ⊢
+        simp only [c1, c2]
+        exact hval
+      unfold commit
+      rw [if_pos hv']
+      refine ⟨_, rfl, ?_⟩
+      intro hmv
+      unfold memValid at hmv ⊢
+      simp only [decide_eq_true_eq] at hmv ⊢
+      rw [c3]
+      unfold fitMemory at hf
+      simp only [List.length_replicate, Bool.or_eq_true, beq_iff_eq, decide_eq_true_eq] at hf
+      have hav : info.available.mem = info.cap.mem - info.use.mem := rfl
+      simp only []
+      rcases hf with (h0 | hle) | hfit
+      · rw [h0]; simp; exact hmv
+      · have : w.memReq = 0 := by omega
+        rw [this]; simp; exact hmv
+      · omega
+
+/-- the hypotheses of `commit_validate`/`commit_memValid` are satisfiable on a NUMA node: two NUMA-local instances of
     0.5 core / 10 memory are committed to `exampleNode` -/
 example : (match calculateDeploy exampleNode 100 (-1) 2 { bind := true, cpuReq := 500, cpuLim := 500, memReq := 10, memLim := 10 } ["n1", "n0"] with
     | .ok ws => (match commit exampleNode ws with | .ok i => i.validate && memValid i | _ => false) | _ => false) = true := by decide
